@@ -279,7 +279,8 @@ StepCrash(s, ev, at) ==
                ELSE "a panic escaped from a path that must not panic (internal assertion)")}]
 
 Step0(s, ev, at) ==
-    CASE ev.op = "decl"          -> [st |-> s, v |-> {}]
+    CASE ev.op = "decl"          -> [st |-> s, v |-> If("num_archetypes" \in DOMAIN ev /\ ev.num_archetypes # Len(ev.archs),
+                                                             {V(<<"C15", "C16">>, at, "World::NUM_ARCHETYPES differs from the number of declared archetypes")})]
       [] ev.op = "reset"         -> StepReset(s, ev, at)
       [] ev.op = "init"          -> StepInit(s, ev, at)
       [] ev.op = "create"        -> StepCreate(s, ev, FALSE, at)
